@@ -80,6 +80,21 @@ def run(check, repo: Repo) -> None:
                      fail_detail="the record is replayed in forward order: when one key is set twice (or a parent "
                                  "then a child) the older value is lost")
 
+    # the rollback log is per set(...) object: a class-level list (not replaced in __init__) is shared by every instance, so the __exit__ of one
+    # context manager replays the records of earlier plain set() calls and of enclosing blocks
+    from ..domains.memo import memo_findings
+    cmod = repo.module(CFGMOD)
+    cfns = []
+    for st_ in cmod.tree.body:
+        if isinstance(st_, ast.FunctionDef):
+            cfns.append((st_.name, st_, None))
+        elif isinstance(st_, ast.ClassDef):
+            cfns += [(f"{st_.name}.{f.name}", f, st_.name) for f in st_.body if isinstance(f, ast.FunctionDef)]
+    shared, _n = memo_findings(cmod.tree, [x for x in cfns if x[2] == "set"])
+    check.decide(not shared, "C19-R1", "config.set: the rollback record belongs to the instance (no class-level list shared between set(...) objects)", "", mod.line(set_cls),
+                 fail_detail=(shared[0][2] if shared else "") + ": plain set() calls leave records behind and the __exit__ of any later `with set(...)` reverts them — last-writer-wins and "
+                             "'restore only the previous values' are both broken")
+
     # ---- R2 validate before store -----------------------------------------------------------
     n_sites = 0
     _, init = repo.func(f"{CFGMOD}:set.__init__")
